@@ -29,4 +29,20 @@ def main():
         rc = 2
     else:
         print("MC_BigNat:", vlib.parse_tlc_stats(r.stdout))
+    # Layer-2 models, small instances (design-level; DESIGN.md 8)
+    algo = os.path.join(vlib.VERIF, "algo")
+    for mod, cfg in (("Knuth", "Knuth_small"), ("Redc", "Redc_small"), ("LimbShift", "LimbShift_small"), ("AddMul", "AddMul_small")):
+        meta = os.path.join(vlib.OUT, "algo_" + cfg)
+        try:
+            r = subprocess.run(vlib.tlc_cmd(mod + ".tla", cfg + ".cfg", meta, workers=8, gc="-XX:+UseParallelGC", xmx="6g"),
+                               cwd=algo, capture_output=True, text=True, timeout=900)
+        except subprocess.TimeoutExpired:
+            sys.stderr.write(f"setup: Layer-2 model {cfg} timed out\n")
+            rc = 2
+            continue
+        if "No error has been found" not in r.stdout:
+            sys.stderr.write(f"setup: Layer-2 model {cfg} failed\n" + r.stdout[-1500:])
+            rc = 2
+        else:
+            print(f"algo/{cfg}:", vlib.parse_tlc_stats(r.stdout))
     return rc
